@@ -773,7 +773,12 @@ func (e *Exec) specCall(c *ast.CallExpr, env *SpecEnv) (Val, types.Type) {
 			if env.old == nil {
 				return e.specErr("fresh() without old state")
 			}
-			return bv(sx(">", sx("root", e.asInt(v)), env.old.alloc)), tBool
+			// (between the allocation counter at entry and the current one: objects that do not exist yet are not fresh)
+			lo := sx(">", sx("root", e.asInt(v)), env.old.alloc)
+			if env.cur != nil && env.cur.alloc != "" && !env.inOld {
+				return bv(mkAnd(lo, sx("<=", sx("root", e.asInt(v)), env.cur.alloc))), tBool
+			}
+			return bv(lo), tBool
 		}
 		// predicate?
 		if p := e.lookupPred(id.Name, env); p != nil {
